@@ -264,6 +264,8 @@ pub enum LenSpec {
     ToBlockEnd(i8),
     /// exactly the bytes left in the keystream, plus delta (only when that is a small number)
     ToStreamEnd(i8),
+    /// a long request: 1 KiB + 8 * n bytes (up to ~0.5 MiB)
+    Big(u16),
 }
 
 #[derive(Clone, Debug, Serialize, Deserialize)]
@@ -338,16 +340,18 @@ fn target(v: Variant, boundary_heavy: bool) -> BoxedStrategy<Target> {
 fn lenspec(boundary_heavy: bool) -> BoxedStrategy<LenSpec> {
     if boundary_heavy {
         prop_oneof![
-            4 => len_mix().prop_map(LenSpec::Fixed),
-            2 => (-2i8..3).prop_map(LenSpec::ToBlockEnd),
-            4 => (-2i8..3).prop_map(LenSpec::ToStreamEnd),
+            16 => len_mix().prop_map(LenSpec::Fixed),
+            8 => (-2i8..3).prop_map(LenSpec::ToBlockEnd),
+            16 => (-2i8..3).prop_map(LenSpec::ToStreamEnd),
+            1 => prop_oneof![3 => 0u16..2048, 1 => any::<u16>()].prop_map(LenSpec::Big),
         ]
         .boxed()
     } else {
         prop_oneof![
-            6 => len_mix().prop_map(LenSpec::Fixed),
-            3 => (-2i8..3).prop_map(LenSpec::ToBlockEnd),
-            1 => (-2i8..3).prop_map(LenSpec::ToStreamEnd),
+            24 => len_mix().prop_map(LenSpec::Fixed),
+            12 => (-2i8..3).prop_map(LenSpec::ToBlockEnd),
+            4 => (-2i8..3).prop_map(LenSpec::ToStreamEnd),
+            1 => prop_oneof![3 => 0u16..2048, 1 => any::<u16>()].prop_map(LenSpec::Big),
         ]
         .boxed()
     }
@@ -479,6 +483,7 @@ pub fn history_check(prop: &str, h: &History, info: &mut CaseInfo) -> Result<(),
                 let n: usize = match ls {
                     LenSpec::Fixed(n) => *n as usize,
                     LenSpec::ToBlockEnd(d) => ((64 - (pos % 64) as i64) % 64 + *d as i64).max(0) as usize,
+                    LenSpec::Big(k) => 1024 + 8 * (*k as usize),
                     LenSpec::ToStreamEnd(d) => {
                         let left = limit - pos.min(limit);
                         // up to ~3.5 MiB a request really runs to the end of the keystream (+- d)
@@ -517,6 +522,7 @@ pub fn history_check(prop: &str, h: &History, info: &mut CaseInfo) -> Result<(),
                             info.label_if(pos / 64 < (1 << 32) && (pos + n as u128) / 64 >= (1 << 32) && v.layout != Layout::Ietf, "crosses block 2^32");
                             info.label_if(n >= 256, "wide path");
                             info.label_if(n > (1 << 20), "request longer than 1 MiB");
+                            info.label_if(n >= 4096, "request of >= 4 KiB");
                             after_midblock_seek = false;
                             pos += n as u128;
                             last_apply_ended_midblock = pos % 64 != 0;
